@@ -18,6 +18,8 @@ import TnVerif.Generated
 import TnVerif.Model.Maxvol
 import TnVerif.Model.TTMatrix
 import TnVerif.Model.Cross
+import TnVerif.Model.Cat
+import TnVerif.Model.Pad
 /-
   Line-protocol driver (DESIGN §2.6).  One request per line on stdin, one answer per line on
   stdout.  Tokens are separated by blanks; numbers are integers or `p/q`.
@@ -453,6 +455,20 @@ def run (cmd : String) : PM String := do
         for a in [0:ra] do for i in [0:m.n] do for b in [0:rb] do
           out := evalPoint L' m R' a i b :: out
         return "ok " ++ showQs out.reverse
+  | "cat" => do
+      let k ← pNat; let dim ← pInt
+      let mut ts : Array (Tensor Q) := #[]
+      for _ in [0:k] do ts := ts.push (← pTensor)
+      match Tensor.cat ts.toList dim with
+      | .error e => return "err " ++ (match e with
+          | .empty => "empty" | .dimRange => "dimRange" | .modes => "modes" | .shape => "shape")
+      | .ok r => return "ok " ++ showTensor r
+  | "cat2" => do
+      let dim ← pNat; let t ← pTensor; let u ← pTensor
+      return "ok " ++ showTensor (t.cat2 u dim)
+  | "padc" => do
+      let sizes ← pIntList; let ρ ← pQ; let sg ← pQ; let t ← pTensor
+      return "ok " ++ showTensor (t.padC (sizes.map fun z => if z < 0 then none else some z.toNat) ρ sg)
   | "kron_ok" => do
       let ranks ← pNatList; let ind ← pNatList; let outd ← pNatList
       return "ok B " ++ (if kronOK ranks ind outd then "1" else "0")
